@@ -68,3 +68,28 @@ Definition conf_session (boards : list board) (ns ew : string) (scripts : seat -
 Definition conforming (boards : list board) (scripts : seat -> list cscript) : bool :=
   forallb (fun p => length (scripts p) =? length boards) all_seats &&
   forallb (fun '(j, b) => conform_board b (fun p => nth_script (scripts p) j)) (combine (seq 0 (length boards)) boards).
+
+(* ---- what the main thread logs for a conforming board (the record built in Session.boards_loop), as a pure function ---- *)
+Definition model_record (names : seat -> string) (b : board) (sc : seat -> cscript) : option logrec :=
+  match seq_calls 400 (Auction.init (b_dealer b) (b_vul b)) (fun p => sc_calls (sc p)) with
+  | None => None
+  | Some s =>
+      match contract_of s with
+      | None => None
+      | Some k =>
+          if is_passed_out k then
+            Some (mkLog names (b_id b) (b_dealer b) (b_deal b) (hist s) k None None "IMP" 0%Z 0%Z (b_dda b))
+          else
+            match init_hands k (b_deal b) with
+            | None => None
+            | Some hs0 =>
+                match seq_cards 52 hs0 (fun p => sc_cards (sc p)) with
+                | None => None
+                | Some hs =>
+                    let t := Z.of_nat (taken (hbase hs) (side_of (declarer (hbase hs)))) in
+                    match calc_score k t with
+                    | None => None
+                    | Some score =>
+                        let (sns, sew) := scores_of k score in
+                        Some (mkLog names (b_id b) (b_dealer b) (b_deal b) (hist s) k (Some (tricks (hbase hs))) (Some t) "IMP" sns sew (b_dda b))
+                    end end end end end.
